@@ -66,6 +66,9 @@ Inductive clone_obs :=
 Inductive case :=
 | CSecure (input : gv) (o : obs)
 | CClone (keep_state : bool) (r : root) (o : clone_obs)
+| CKept (kept : list (gv * gv))             (* clone.Plan with WithRemoveCompletedSequences: (value in the clone, the original's) for
+                                               every request / response the clone still holds *)
+        (found secret plain : list leaf)
 | CRender (p : plan_sk) (ok : bool) (found : list leaf) (expect : list leaf)
 | CReg (req resp : ty) (registered : bool).
 
@@ -134,6 +137,12 @@ Definition check_case (c : case) : list nat :=
                | _ => [11; 5]
                end
       end
+  | CKept kept found secret plain =>
+      if negb (forallb (fun kv => scrubbedb (fst kv)) kept) then [12; 9]
+      else if existsb (fun x => memb x found) secret then [17; 9]
+      else if negb (subsetb plain found) then [17; 8]
+      else if negb (forallb (fun kv => gv_eqb (fst kv) (scrub (snd kv))) kept) then [11; 9]
+      else [0; 0]
   | CRender p ok found expect =>
       if negb ok then [24; 0]
       else match render p with
